@@ -332,7 +332,25 @@ def check(ctx):
     from .common_domains import name_alias_domains_rule
     name_alias_domains_rule(ctx, "C13.R7", ("apischema.discriminators",))
 
+    # ---------------- R8: inherited discriminator, several inheritance levels
+    ctx.rule("C13.R8", "discriminator(cls): the union the serializer converts to lists the subclasses most derived first - serialization takes the first alternative the object is an instance of, and rec_subclasses yields a parent before its children", floor=2)
+    dc = model.func("apischema.discriminators.Discriminator.__call__")
+    rs_f = model.func("apischema.discriminators.rec_subclasses")
+    preorder = any(isinstance(n, ast.Expr) and isinstance(n.value, ast.Yield) and norm(n.value.value) == "sub_cls" for n in ast.walk(rs_f.node)) and \
+        [type(n.value).__name__ for n in ast.walk(rs_f.node) if isinstance(n, ast.Expr) and isinstance(n.value, (ast.Yield, ast.YieldFrom))] == ["Yield", "YieldFrom"]
+    ser_calls = [c for c in ast.walk(dc.node) if isinstance(c, ast.Call) and dotted(c.func) == "serializer"]
+    ctx.require(len(ser_calls) == 1, "discriminator(cls): serializer registration not found")
+    tg = [k.value for c in ast.walk(ser_calls[0]) if isinstance(c, ast.Call) and dotted(c.func) == "Conversion" for k in c.keywords if k.arg == "target"]
+    ctx.require(len(tg) == 1, "discriminator(cls): target of the serializer conversion not found")
+    t_ = norm(tg[0])
+    derived_first = ("reversed(" in t_ and "rec_subclasses(cls)" in t_) or ("sorted(" in t_ and "__mro__" in t_ and "reverse=True" in t_)
+    ctx.check((not preorder) or derived_first, "C13.R8", f"{dc.qualname}:serializer-order", None,
+              f"`target={short(tg[0], 60)}` keeps the order of rec_subclasses (parents first): with Base <- A <- AA, serialize(Base, AA()) matches alternative A first, drops AA's own fields and writes the discriminator value of A - the value does not round-trip",
+              dc, tg[0], detail="Union[tuple(reversed(list(rec_subclasses(cls))))]")
+    ctx.check(preorder or derived_first, "C13.R8", f"{rs_f.qualname}:order", None, "rec_subclasses no longer yields a class before its own subclasses and the serializer does not reorder: the order of the alternatives is unknown", rs_f, rs_f.node, detail="parent, then its subclasses", nontrivial=False)
+
 def mutants(mb):
+    mb.add_text("discriminated-serializer-parents-first", "apischema/discriminators.py", "                target=Union[tuple(reversed(list(rec_subclasses(cls))))],\n", "                target=Union[tuple(rec_subclasses(cls))],\n", "C13.R8", "serializer-order")
     mb.add_text("discriminate-plain-alternative", "apischema/serialization/__init__.py", "                    DiscriminatedAlternative(\n                        expected_class(tp),\n                        self.visit(tp),\n                        self.aliaser(discriminator.alias),\n                        key,\n                    )\n", "                    UnionAlternative(expected_class(tp), self.visit(tp))\n", "C13.R4", "discriminate")
     mb.add_text("conversion-factory-keyed", "apischema/deserialization/__init__.py", "        return self._factory(factory, validation=not dynamic)\n", "        return dataclasses.replace(self._factory(factory, validation=not dynamic), cls=conv_factories[0].cls)\n", "C13.R1", "replace(cls=)")
     D = "apischema/deserialization/__init__.py"
